@@ -1,1 +1,67 @@
-fn main(){}
+//! Worker binary for the checks that run against the std+half+derive build.
+//!
+//! usage: vmain <check> --tier quick|thorough --seed N --shard k --nshards n --out report.json
+//!        vmain <check> --out report.json --replay <args...>
+
+use vcore::mon;
+use vcore::report::{Args, Report};
+
+#[macro_use]
+pub mod subj;
+pub mod c01;
+
+#[cfg(not(any(miri, verif_no_alloc_monitor)))]
+#[global_allocator]
+static ALLOC: mon::CountingAlloc = mon::CountingAlloc;
+
+fn main() {
+    let argv: Vec<String> = std::env::args().collect();
+    if argv.len() < 2 {
+        eprintln!("usage: vmain <check> [--tier t] [--seed n] [--shard k] [--nshards n] [--out path] [--replay ...]");
+        std::process::exit(2);
+    }
+    if argv[1] == "merge-hashes" {
+        println!("{}", vcore::report::merge_hash_files(&argv[2..]));
+        return;
+    }
+    let args = Args::parse(&argv);
+    mon::install_panic_hook();
+    #[cfg(not(any(miri, verif_no_alloc_monitor)))]
+    mon::set_alloc_active(true);
+    #[cfg(all(minicbor_verif, have_step_hook))]
+    mon::register_step_hook(minicbor::verif::reset, minicbor::verif::steps);
+    let wd: u64 = std::env::var("VERIF_WATCHDOG_SECS").ok().and_then(|s| s.parse().ok()).unwrap_or(300);
+    if wd > 0 {
+        mon::start_watchdog(wd);
+    }
+    let a2 = args.clone();
+    let h = std::thread::Builder::new()
+        .stack_size(1 << 30)
+        .name("worker".into())
+        .spawn(move || {
+            let mut rep = Report::new(&a2.check, &a2.tier, a2.seed, a2.shard, a2.nshards);
+            rep.note(format!("step_hook={} io_hook={} alloc_monitor={}", mon::steps_available(), cfg!(have_io_hook), mon::alloc_active()));
+            let replay = !a2.replay.is_empty();
+            match a2.check.as_str() {
+                "c01" => if replay { c01::replay(&a2, &mut rep) } else { c01::run(&a2, &mut rep) },
+                other => {
+                    eprintln!("unknown check {}", other);
+                    std::process::exit(2)
+                }
+            }
+            rep
+        })
+        .expect("spawn worker");
+    let rep = match h.join() {
+        Ok(r) => r,
+        Err(_) => {
+            eprintln!("VERIF-HARNESS-PANIC worker thread panicked outside a guarded call");
+            std::process::exit(98)
+        }
+    };
+    if !args.out.is_empty() {
+        rep.write(&args.out);
+    } else {
+        println!("{}", rep.to_json().render());
+    }
+}
